@@ -1,8 +1,22 @@
 (** Property C09 — loading translations never panics or hangs, whatever the files contain.
-    String level (ParsedValue::new).  This file holds only property theorems. *)
+    This file holds only property theorems.
+
+    WHAT IS PROVED.  String level: [C09_parse_total] (ParsedValue::new, every string, no panic, fuel adequacy) and
+    [C09_scan_boundaries].  Range counts: [C09_range_count_total] (Range::new / from_u64,i64,f64 / RangeSeed::visit_seq, every
+    input, no panic).  Proved in other property files over their own models: `find_value` never panics on a literal count
+    (Props/C04.v, C09_find_value_never_panics) and plural merging of one level never panics (Props/C05.v, C05_conflicts).
+
+    WHAT IS NOT PROVED.  There is no Coq model composing the whole loader (configuration, file front-ends, merge of locales,
+    foreign-key resolution across plural merging, build-script API, code generation): the statement
+    "forall cfg files, run cfg files is Ok or Err" of DESIGN §5 C09 is NOT established as a theorem.  For those stages the check
+    (checks/C09.py, section "pipeline") gives correspondence + fault enumeration only: the enumerated malformed-project classes
+    and a random malformed stream are run through parse_locales, leptos_i18n_build and the macro crate's code generator under
+    catch_unwind, with stack-depth probes in child processes; the evidence records counts per stage and class. *)
 From Coq Require Import List NArith Bool.
 Import ListNotations.
 From LI Require Import Base.StrOps Parser.Parse Parser.Json Parser.ParseCheck Parser.ParseTotal.
+From LI Require Parser.Ranges.
+From LI Require Parser.RangesTotal.
 
 (** For EVERY string (well-formed or not), every identifier oracle and every JSON oracle that itself
     neither panics nor returns strings longer than its input, ParsedValue::new returns a value, a
@@ -31,3 +45,11 @@ Example C09_parse_fixed_witness :
   model_parse [36;116;40;97;44]%N = Err E_UnexpectedToken /\
   exists v, model_parse [60;98;62;120;60;47;98;12288;62]%N = Ok v.
 Proof. split; [vm_compute; reflexivity | eexists; vm_compute; reflexivity]. Qed.
+
+(** Pipeline, range declarations: a count given as a string (`"1..5 | 7"`, `"..=0.5"`, `"NaN"`, ...), as a JSON number of any
+    size, or as arbitrarily nested lists of those, is turned into a range, a descriptive error, or Unmodelled (a float numeral
+    the oracle table does not cover) — never a panic — for every declared type, before ([strict = false]) and after the
+    non-finite repair. *)
+Theorem C09_range_count_total : forall strict t tbl c site,
+  Ranges.parse_count_g strict t tbl c <> Ranges.Panic site.
+Proof. exact RangesTotal.parse_count_nopanic. Qed.
